@@ -242,10 +242,15 @@ def judge(scn, ex, ctx):
     if ex.outcome in ("deadlock", "livelock"):
         op = prog[ctx.step] if ctx.step is not None else ("teardown",)
         ext, done, pref, nbuf = ctx.state if ctx.state else (None, None, None, None)
-        if ex.outcome == "deadlock":
-            wait = "no-request-outstanding" if ext == 0 else "requests-outstanding"
+        upto = prog[:(ctx.step + 1) if ctx.step is not None else len(prog)]
+        readvs = [o for o in upto if o[0] == "readv"]
+        beyond = any(a + n > scn["size"] for o in readvs for a, n in o[1])
+        if ex.outcome == "deadlock" and ext == 0:
+            # waiting for a response although nothing was requested: input class = did a readv() precede
+            wait = "no-request-outstanding:" + ("after-readv" if readvs else "prefetch-only")
         else:
-            wait = "polling-forever"
+            wait = "requests-outstanding" if ex.outcome == "deadlock" else "polling-forever"
+            wait += ":" + ("request-beyond-eof" if beyond else "within-file")
         key = "never-returns:%s:%s" % (ex.outcome, wait)
         return (key, {"op": list(op), "step": ctx.step, "outstanding_requests": ext,
                       "prefetch_done_flag": done, "prefetching_flag": pref, "coverage_at_call": getattr(ctx, "cover", None),
